@@ -26,4 +26,6 @@ CountInv == \A p \in 0..TLen(t) :
   /\ PLF(t, p) = Cardinality({ i \in 1..p : Exp[i] = LF })
   /\ PT(t, p) = Cardinality({ i \in 1..p : Exp[i] = LF \/ (Exp[i] = CR /\ (i = Len(Exp) \/ Exp[i + 1] # LF)) })
   /\ ByteAt(t, p) = (IF p < Len(Exp) THEN Exp[p + 1] ELSE -1)
+  /\ LET starts == { i \in 1..Len(Exp) : ~IsCont(Exp[i]) } IN
+     ByteOfRune(t, p) = (IF p < Cardinality(starts) THEN (CHOOSE i \in starts : Cardinality({ j \in starts : j < i }) = p) - 1 ELSE Len(Exp))
 =============================================================================
